@@ -1215,6 +1215,9 @@ def c01(sc, V):
                 continue        # reload in the same clock tick as the previous spawn: stable sort keeps the old ones (named hypothesis)
             if wa["status"] != "active":
                 continue
+            # hooks that may veto a spawn are outside C01's quantifier too (a vetoed replacement leaves the old worker)
+            if any(h in (cfg.get("hooks") or {}) for h in ("before_spawn", "after_spawn")):
+                continue
             old = set(p[0] for p in wb["procs"])
             stale = [p[0] for p in wa["procs"] if p[0] in old and alive(s.snap.kernel.get(p[0], ("g", 0))[0])]
             # spawn failures (exec errors) are outside C01's quantifier: with them the old workers may have to stay
